@@ -59,6 +59,7 @@ type interpreter struct {
 	funcCache map[string]*ssa.Function
 	syncMaps  map[*value]*omap
 	maxSteps0 int64
+	thorough  bool
 	loopCutFn string
 	loopCutN  int
 	srcCache  map[string][]string
